@@ -34,7 +34,7 @@ ASSUMPTIONS = ["matching rule restated in rtmon.mon_state.model_matches (shared 
 
 
 def new_record(rng, recs, d):
-    kind = rng.choice(["fresh", "curie", "uri", "both", "case", "two", "syn-only"])
+    kind = rng.choice(["fresh", "curie", "uri", "both", "case", "two", "syn-only", "same-record-more-names"])
     fresh_p = [p + rng.choice("XYZ") + str(rng.randint(0, 9)) for p in ("n", "N", "m")]
     fresh_u = ["http://new/" + rng.choice("abAB") + rng.choice("_/#"), "new:" + rng.choice("xyz"), "http://x/a_" + rng.choice("nN")]
     p, u = rng.choice(fresh_p), rng.choice(fresh_u)
@@ -69,6 +69,20 @@ def new_record(rng, recs, d):
             us.append(rng.choice(spec.all_u(b)))
         if kind == "syn-only":
             ps.append(rng.choice(spec.all_p(a)))
+        if kind == "same-record-more-names":
+            # the very record that is registered already, with one more name whose spelling hides in a joined key: the empty
+            # string next to no synonyms, or the comma-join of the existing synonyms (seed C05-L: records identified by
+            # ",".join(sorted(synonyms)))
+            p, u = a.prefix, a.uri_prefix
+            known_p = {x for r in recs for x in spec.all_p(r)}
+            known_u = {x for r in recs for x in spec.all_u(r)}
+            side = rng.choice(["curie", "uri"])
+            ps, us = list(a.psyn), list(a.usyn)
+            extra = "" if rng.random() < 0.5 else ",".join(sorted(a.psyn if side == "curie" else a.usyn))
+            if side == "curie" and extra not in known_p and d not in extra:
+                ps = [extra] if extra == "" and not a.psyn else [extra] if extra else ps + [""]
+            elif side == "uri" and extra not in known_u:
+                us = [extra] if extra == "" and not a.usyn else [extra] if extra else us + [""]
     ps = [x for x in dict.fromkeys(ps) if x != p]
     us = [x for x in dict.fromkeys(us) if x != u]
     return spec.Rec(p, u, tuple(ps), tuple(us), rng.choice([None, None, "^\\d+$"])), kind
